@@ -370,7 +370,7 @@ pub fn gen_server(r: &mut Rng, hostile: bool, steps: usize) -> Vec<Tree> {
         let id = ids[k];
         let ce = Ep::Conn(k as u64);
         let se = Ep::Srv(id);
-        let w: [u32; 16] = [8, 3, 3, 1, 8, 8, 10, 16, 6, 6, 3, 4, 2, 2, if hostile { 5 } else { 0 }, 2];
+        let w: [u32; 16] = [8, 3, 3, 1, 8, 8, 10, 14, 6, 10, 3, 4, 2, 2, if hostile { 5 } else { 0 }, 2];
         match r.weighted(&w) {
             0 => {
                 // connect a remote client
@@ -447,8 +447,15 @@ pub fn gen_server(r: &mut Rng, hostile: bool, steps: usize) -> Vec<Tree> {
             }
             9 => {
                 if created[k] {
-                    let c = r.pick(&server_cfg).clone();
-                    ops.push(op_drain(ce, c.id));
+                    // a full exchange in both directions, then both applications drain
+                    ops.push(l(vec![n(62u8), ep_tree(ce), ep_tree(se)]));
+                    ops.push(l(vec![n(62u8), ep_tree(se), ep_tree(ce)]));
+                    for c in server_cfg.iter() {
+                        ops.push(op_drain(ce, c.id));
+                    }
+                    for c in client_cfg.iter() {
+                        ops.push(op_drain(se, c.id));
+                    }
                 }
             }
             10 => {
